@@ -71,6 +71,26 @@ fn strat(ctx: &ShardCtx, small_cache: bool, nested: u32) -> BoxedStrategy<CrashC
     (gen_cfg(small_cache), gen_history(&o)).prop_map(move |(cfg, steps)| CrashCase { cfg, steps, excluded: excluded.clone(), stride, nested }).boxed()
 }
 
+/// Long-log shape: one small table and 120-230 single-row autocommit statements without a checkpoint, so that
+/// the log grows beyond its first 40 KiB block and forces land on block boundaries.
+fn long_log(ctx: &ShardCtx, nested: u32) -> BoxedStrategy<CrashCase> {
+    let excluded: Vec<String> = ctx.excludes.keys().cloned().collect();
+    let stride = ctx.tier.pick(9u32, 2u32);
+    (prop::collection::vec((0u8..12, prop::bool::weighted(0.15)), 120..230), 0u8..3)
+        .prop_map(move |(ops, ty)| {
+            let mut steps = vec![Step::Auto(AStmt::Create { name: 0, cols: vec![ACol { ty, not_null: false, default: None }, ACol { ty: 3, not_null: false, default: None }], pk: None, uniq: None })];
+            for (v, del) in ops {
+                if del {
+                    steps.push(Step::Auto(AStmt::Delete { t: 0, pred: APred::Cmp { col: 0, op: 0, val: AVal::Pool(v) } }));
+                } else {
+                    steps.push(Step::Auto(AStmt::Insert { t: 0, rows: vec![vec![AVal::Pool(v), AVal::Pool(v / 2), AVal::Pool(v), AVal::Pool(v), AVal::Pool(v)]], partial: false }));
+                }
+            }
+            CrashCase { cfg: Cfg::default(), steps, excluded: excluded.clone(), stride, nested }
+        })
+        .boxed()
+}
+
 fn shard(ctx: &mut ShardCtx, prefix: &'static str, small_cache: bool, nested: u32, quick: u64, thorough: u64, replay: fn(&str, &Value) -> CaseOut) {
     if ctx.shard == 0 {
         ctx.witnesses(&replay);
@@ -78,6 +98,9 @@ fn shard(ctx: &mut ShardCtx, prefix: &'static str, small_cache: bool, nested: u3
     let n = ctx.share(ctx.tier.pick(quick, thorough));
     let s = strat(ctx, small_cache, nested);
     ctx.search("crash_history", s, n, &move |c: &CrashCase| for_property(run_crash(c), prefix));
+    let nl = ctx.share(ctx.tier.pick(32, 400));
+    let s2 = long_log(ctx, nested.min(1));
+    ctx.search("crash_history", s2, nl, &move |c: &CrashCase| for_property(run_crash(c), prefix));
 }
 
 fn replay_with(kind: &str, case: &Value, prefix: &str) -> CaseOut {
